@@ -1,17 +1,25 @@
 import Vanguard.Lemmas.Headers
+import Vanguard.Lemmas.RespHeaders
 /-!
   C05 — Application headers and trailers survive transcoding in both directions.
 
   Header maps are association lists over canonical keys; every statement is about `values k`, so
   Go's map iteration order cannot matter.  `NotControl k` says that `k` is none of the header names
   the protocol handlers read, delete or set (`controlNames`).
-  Proved (request direction, every configuration, client form, target form and header set):
-  a header that is not a protocol control header has, after validation and after the target
-  protocol's headers were added, exactly the name and (multi-)values the client sent.
-  Response direction and trailer relocation: compared field by field between model and
-  implementation on every e2e scenario (`ch`, `ct`), and checked against the scenario's ground
-  truth by `oracleC05` (response headers present, trailers present in the place the client's
-  protocol defines, no gRPC status key in application metadata).  Partial: no theorem yet.
+  Proved, **request direction** (every configuration, client form, target form and header set): a
+  header that is not a protocol control header has, after validation and after the target protocol's
+  headers were added, exactly the name and (multi-)values the client sent.
+  Proved, **response direction** (every backend protocol, client protocol, status, declared trailers,
+  content length, compression): `head_has_application_headers` - when the response head goes out
+  without ending the RPC, every application header (`RespApp`: not a response control header, not
+  written in one of the two trailer notations) has in the head the client receives exactly the values
+  the backend handler left in its header map; the three steps behind it are separate theorems
+  (`extract_response_keeps_application_headers`, `add_response_headers_keep_application_headers`,
+  `flushed_head_is_the_live_map`).  Protocol status keys never stay in application trailers
+  (`status_keys_never_leak`), other trailer keys are untouched by the status extraction.
+  Trailer relocation (which place the client's protocol defines) and error responses: compared field
+  by field between model and implementation on every e2e scenario (`ch`, `ct`), and checked against
+  the scenario's ground truth by `oracleC05`.  Partial: no theorem for the trailer relocation.
 -/
 namespace Vanguard.C05
 open Vanguard
@@ -33,5 +41,56 @@ theorem request_headers_reach_backend (w : World) (t : TConf) (r : Req) (o : Op)
     (o.sform.addRequestHeaders m o.headers).values k = r.headers.values k := by
   rw [add_request_headers_preserves o.sform m o.headers k hk]
   exact validate_preserves_headers w t r o k hk hv
+
+/-! ### response direction -/
+
+/-- Taking the backend protocol's control headers out of the response head leaves every application
+    header untouched. -/
+theorem extract_response_keeps_application_headers (p : ServerForm) (tb : Tables) (status : Nat) (h : Hdr) (k : Bytes)
+    (hk : RespApp k) : (p.extractResponseHeaders tb status h).2.2.values k = h.values k :=
+  extract_response_preserves p tb status h k hk
+
+/-- Adding the client protocol's control headers (and, for an end that travels in the head, its
+    trailers under other keys) touches no application header. -/
+theorem add_response_headers_keep_application_headers (c : ClientForm) (rm : RespMeta) (sink : Sink) (k : Bytes)
+    (hk : RespApp k) (ha : EndAvoids rm.end k) : (addResponseHeaders c rm sink).2.hdr.values k = sink.hdr.values k :=
+  add_response_preserves c rm sink k hk ha
+
+/-- The head on the wire is the live header map at the moment of the flush. -/
+theorem flushed_head_is_the_live_map (w : World) (st : St) (k : Bytes) (hk : RespApp k)
+    (hf : st.rw.headersFlushed = false) (hs : st.sink.status = none)
+    (ha : EndAvoids (st.rw.respMeta.getD {}).end k) :
+    (flushHeaders w st).1.sink.snap.values k = st.sink.hdr.values k :=
+  flushHeaders_snapshot w st k hk hf hs ha
+
+/-- **Response headers reach the client** (see `Lemmas/RespHeaders.lean` for the statement in words). -/
+theorem response_headers_reach_client (w : World) (tb : Tables) (st : St) (status : Nat) (k : Bytes) (h0 : Hdr)
+    (hk : RespApp k) (hp : Pre k h0 st) (hnew : st.rw.headersWritten = false)
+    (hfl : (rwWriteHeader w tb st status).1.rw.headersFlushed = true)
+    (hop : (rwWriteHeader w tb st status).1.rw.endWritten = false) :
+    (rwWriteHeader w tb st status).1.sink.snap.values k = h0.values k :=
+  head_has_application_headers w tb st status k h0 hk hp hnew hfl hop
+
+/-- gRPC status keys never stay in the application trailers; every other key keeps its values. -/
+theorem status_keys_never_leak (tb : Tables) (h : Hdr) :
+    (grpcExtractErrorFromTrailer tb h).2.has (s "Grpc-Status") = false ∧
+    (grpcExtractErrorFromTrailer tb h).2.has (s "Grpc-Message") = false ∧
+    (grpcExtractErrorFromTrailer tb h).2.has (s "Grpc-Status-Details-Bin") = false :=
+  grpcExtractErrorFromTrailer_no_status tb h
+
+theorem trailer_keys_survive_status_extraction (tb : Tables) (h : Hdr) (k : Bytes) (hk : RespApp k) :
+    (grpcExtractErrorFromTrailer tb h).2.values k = h.values k :=
+  grpcExtractErrorFromTrailer_values tb h k hk
+
+/-! Non-vacuity: a gRPC-Web client in front of a gRPC backend whose handler set `X-App` and the
+    gRPC content type: `WriteHeader(200)` flushes the head, does not end the RPC, and the head the
+    client receives has `X-App` with the handler's value (kernel-evaluated). -/
+def demoConf : MethodConf := { path := s "/p.S/M", streamType := .unary, noSideEffects := false, protocols := [.grpc], codecs := [rawName], compressors := [], maxMsg := 100, maxGetURL := 100 }
+def demoOp : Op := { conf := demoConf, cform := .grpcWeb, sform := .grpc, reqMeta := {}, ccodec := rawName, scodec := rawName, cReqComp := none, sReqComp := none, headers := [], contentLen := -1, query := [], reqMethod := sPOST }
+def demoSt : St := { op := demoOp, src := { chunks := [], ending := .eof }, sink := { hdr := [(s "Content-Type", [s "application/grpc+raw"]), (s "X-App", [[1, 2]])] } }
+example : ((rwWriteHeader fakeWorld {} demoSt 200).1.rw.headersFlushed
+    && !(rwWriteHeader fakeWorld {} demoSt 200).1.rw.endWritten
+    && ((rwWriteHeader fakeWorld {} demoSt 200).1.sink.snap.values (s "X-App") == [[1, 2]])) = true := by decide +kernel
+example : Pre (s "X-App") demoSt.sink.hdr demoSt := ⟨rfl, rfl, rfl, rfl⟩
 
 end Vanguard.C05
